@@ -108,3 +108,12 @@ pub fn tmpdir(tag: &str) -> std::path::PathBuf {
     let _ = std::fs::create_dir_all(&p);
     p
 }
+
+/// A TCP port that is free right now (asked from the kernel, not derived from the pid: several checks run side by side).
+pub fn free_port(v6: bool) -> u16 {
+    let l = if v6 { std::net::TcpListener::bind("[::1]:0") } else { std::net::TcpListener::bind("127.0.0.1:0") };
+    match l {
+        Ok(l) => l.local_addr().map(|a| a.port()).unwrap_or(0),
+        Err(_) => 20000 + (std::process::id() % 20000) as u16,
+    }
+}
